@@ -100,12 +100,29 @@ func (e *Engine) VerifyFunc(fn *ssa.Function, fc *contract.Func) (rep *FuncRepor
 	}
 	if len(fc.Regions) > 0 {
 		ctx.modAll = true // regions carry no frame condition
-		e.verifyRegions(fn, fc, rep)
+		infos := e.verifyRegions(fn, fc, rep)
 		if fc.Opts["mergegoals"] != "" {
 			merged := MergeSameGoal(e.Obligs[startObl:])
 			e.Obligs = append(e.Obligs[:startObl], merged...)
 		}
-		return rep
+		if fc.Opts["whole"] == "" {
+			return rep
+		}
+		// opt whole: the function also carries a whole-function contract (loops, requires/ensures, implicit safety
+		// obligations); it is verified in a second pass with a fresh context
+		exits := ctx.exits
+		ctx = &verifyCtx{fn: fn, fc: fc, loops: findLoops(fn)}
+		for _, li := range ctx.loops {
+			li.lc = fc.Loops[li.ordinal]
+		}
+		ctx.exits = exits
+		ctx.wholeEntries = map[*ssa.BasicBlock]*regionInfo{}
+		for _, r := range fc.Regions {
+			if ri := infos[r.Name]; ri != nil && r.Parent == "" && len(r.Assumes) > 0 {
+				ctx.wholeEntries[ri.entry] = ri
+			}
+		}
+		e.cur = ctx
 	}
 	st := &State{cellVals: map[*Cell]Value{}, heaps: map[string]*smt.Term{}, facts: map[*smt.Term]bool{}, globals: map[*ssa.Global]Value{}, nonnil: map[*smt.Term]bool{}}
 	st.alloc = smt.Var("alloc@0", smt.Int)
